@@ -206,9 +206,9 @@ CLAIMED = {
              'produced by the writer\'s own format expression, always select the largest time (times < 10^8, 2-3 files). (c) The real driver '
              'under recording stubs, symbolic start/end times, every saveStep<=3 (thorough 4), arbitrary clock, <=3 (6) iterations: no '
              'exception on any path, identical operator sequence in every iteration, the final time is checkpointed exactly once and no '
-             'time twice, so a restart resumes at the last time reached and N + M steps equal N+M steps at the level of control flow. (d) The real get_constants / eval_expr on files with chains of symbolic expressions: for every order in which the keys are consumed (solver-chosen permutation, 6-key files) and all numeric root values, every constant equals its expression over the roots and absent constants keep their defaults.',
+             'time twice, so a restart resumes at the last time reached and N + M steps equal N+M steps at the level of control flow. (d) The real get_constants / eval_expr on files with chains of symbolic expressions: for every order in which the keys are consumed (solver-chosen permutation, 6-key files) and all numeric root values, every constant equals its expression over the roots and absent constants keep their defaults; the text written by Constants.__str__ (what setupSave stores), read back by get_constants, reproduces every public constant for symbolic values (zero included) of six constants.',
         design_ref='DESIGN.md 4 C18',
-        note=TRUST + 'NOT decided: bit-exact HDF5 I/O (h5py C library without MPI-IO here), the printer of the saved parameter file and the text-level float round trip, an explicit rp entry (rp is derived from rMin/rMax), non-integer time steps. '
+        note=TRUST + 'NOT decided: bit-exact HDF5 I/O (h5py C library without MPI-IO here), the text-level round trip of float literals, an explicit rp entry (rp is derived from rMin/rMax), non-integer time steps. '
                      'Driver collaborators are stubs; dt=2.'),
     'C19': dict(
         category='translation_validation',
